@@ -90,9 +90,9 @@ type caseResult struct {
 
 const modM = 65521
 
-func acc0(idx int) int         { return 17 + 31*idx }
-func accStep(acc, v int) int   { return (acc*251 + v + 1) % modM }
-func finalV(acc, ver int) int  { return (acc*7 + ver*13 + 1) % modM }
+func acc0(idx int) int        { return 17 + 31*idx }
+func accStep(acc, v int) int  { return (acc*251 + v + 1) % modM }
+func finalV(acc, ver int) int { return (acc*7 + ver*13 + 1) % modM }
 
 // ---------------------------------------------------------------------------------------------
 // the query world of one case execution
@@ -210,7 +210,22 @@ type tracer struct {
 	events []map[string]any
 }
 
+// the events of experimental/incremental's hooks and of this driver; other hooked packages share the tracer
+var myEvents = map[string]bool{"op.begin": true, "run.ret": true, "evict.ret": true, "run.enter": true, "run.exit": true,
+	"run.unlock": true, "acquire": true, "release": true, "transfer": true, "stored": true, "join.ok": true, "join.fail": true,
+	"start.hit": true, "start.miss": true, "run.load": true, "run.reload": true, "cas.win": true, "cas.lose": true,
+	"lacq.reset": true, "exec.begin": true, "exec.ret": true, "close": true, "drop.reset": true, "panic.reset": true,
+	"panic.cancel": true, "cycle": true, "wake.done": true, "wake.ctx": true, "wait.reload": true, "evict.collect": true,
+	"evict.apply": true}
+
+var myGates = map[string]bool{"acquire": true, "release": true, "join": true, "wait": true, "evict.lock": true, "store": true,
+	"start": true, "load": true, "cas": true, "reload": true, "reset": true, "close": true, "cycle": true, "wreload": true,
+	"lreset": true, "drop": true}
+
 func (tr *tracer) emit(ev string, kv ...any) {
+	if !myEvents[ev] {
+		return
+	}
 	tr.mu.Lock()
 	defer tr.mu.Unlock()
 	if !tr.on {
@@ -244,6 +259,9 @@ func mix(x uint64) uint64 {
 }
 
 func gate(name string, _ ...any) {
+	if !myGates[name] {
+		return
+	}
 	holdMu.Lock()
 	ch := holdCh[name]
 	holdMu.Unlock()
@@ -357,11 +375,44 @@ func allParkedInExecutor(dump string) (bool, string) {
 	return true, where
 }
 
+// confirmStuck polls until the operation finishes (false, ""), or all executor goroutines are parked in two
+// consecutive dumps half a second apart (true), or two minutes pass with something still runnable (false, why).
+func confirmStuck(done chan struct{}) (bool, string, string) {
+	seen := 0
+	var where, dump string
+	for i := 0; i < 240; i++ {
+		select {
+		case <-done:
+			return false, "", ""
+		default:
+		}
+		buf := make([]byte, 1<<20)
+		dump = string(buf[:runtime.Stack(buf, true)])
+		var ok bool
+		ok, where = allParkedInExecutor(dump)
+		if ok {
+			seen++
+			if seen >= 2 {
+				select {
+				case <-done:
+					return false, "", ""
+				default:
+				}
+				return true, where, dump
+			}
+		} else {
+			seen = 0
+		}
+		time.Sleep(500 * time.Millisecond)
+	}
+	return false, "still runnable after two minutes: " + where, dump
+}
+
 type runner struct {
 	lastPanic string
-	tr       *tracer
-	watchdog time.Duration
-	baseG    int
+	tr        *tracer
+	watchdog  time.Duration
+	baseG     int
 }
 
 // runCase executes the history once. It returns the mismatches, whether the trace is complete
@@ -464,16 +515,20 @@ func (r *runner) runCase(tc *testCase, rep int) (res caseResult, events []map[st
 			select {
 			case <-done:
 			case <-time.After(r.watchdog):
-				buf := make([]byte, 1<<20)
-				dump := string(buf[:runtime.Stack(buf, true)])
-				ok, where := allParkedInExecutor(dump)
-				if !ok {
+				// The machine may simply be slow: a hang is reported only when every goroutine inside the
+				// executor is seen blocked in two consecutive dumps and the operation still has not finished.
+				stuck, where, dump := confirmStuck(done)
+				switch {
+				case !stuck && where == "":
+					// it finished after all
+				case !stuck:
 					fmt.Fprintf(os.Stderr, "watchdog expired but no reproduced hang (%s) case %d\n%s\n", where, tc.ID, dump)
 					os.Exit(2)
+				default:
+					add(step, "hang", "every executor goroutine parked: "+where)
+					res.Hang = true
+					hung = true
 				}
-				add(step, "hang", "every executor goroutine parked: "+where)
-				res.Hang = true
-				hung = true
 			}
 			if hold != nil {
 				holdMu.Lock()
@@ -781,8 +836,8 @@ func main() {
 		defer tw.Flush()
 	}
 	tr := &tracer{}
-	verifhook.Trace = tr.emit
-	verifhook.Gate = gate
+	verifhook.SetTrace(tr.emit)
+	verifhook.SetGate(gate)
 	holdCh = map[string]chan struct{}{}
 	gateSeed = mix(*seed)
 
